@@ -68,14 +68,14 @@ def run(ctx: core.Ctx) -> None:
                 errs_adj = [max(0.0, e - floor) for e in errs]
                 tid += 1
                 events.append({"tid": tid, "seq": 0, "ev": "Ladder", "owner": "C03", "what": what,
-                               "errs": [int(min(2e8, round(e * 1e8))) for e in errs_adj]})
+                               "errs": [int(min(1e8, round(e * 1e8))) for e in errs_adj]})
                 summary.append({"family": rs[0]["cfg"]["table"] + "/" + rs[0]["cfg"]["kind"] + "/" + rs[0]["cfg"]["sched"],
                                 "pf": rs[0]["cfg"]["pf"], "what": what, "err_times_nx": [round(r[key], 4) for r in rs]})
     if events:
         for v in trace.validate(ctx, "SchemeTrace", events, count_traces=False):
             e = events[v["tid"] - 1]
             for cl in v["clauses"]:
-                ctx.violation(cl, f"ladder {summary[v['tid'] - 1]} does not shrink by 0.7 per rung: errs*1e8 = {e['errs']}",
+                ctx.violation(cl, f"ladder {summary[v['tid'] - 1]} does not shrink (each rung <= 0.85 x previous, finest pair <= 0.7): errs*1e8 = {e['errs']}",
                               replay={"stage": "ladder", "summary": summary[v["tid"] - 1]})
     ctx.extra["ladders"] = summary
     # random runs: StartsAtZero / Monotone / Ceiling on every family and schedule
